@@ -6,6 +6,7 @@ package main
 
 import (
 	"context"
+	"errors"
 	"fmt"
 	"sort"
 	"strconv"
@@ -13,7 +14,9 @@ import (
 
 	apierrors "k8s.io/apimachinery/pkg/api/errors"
 	metav1 "k8s.io/apimachinery/pkg/apis/meta/v1"
+	"k8s.io/apimachinery/pkg/runtime"
 	kubefake "k8s.io/client-go/kubernetes/fake"
+	k8stesting "k8s.io/client-go/testing"
 
 	bus "volcano.sh/apis/pkg/apis/bus/v1alpha1"
 	sch "volcano.sh/apis/pkg/apis/scheduling/v1beta1"
@@ -184,6 +187,9 @@ type world struct {
 	vc  *vcfake.Clientset
 	c   *qc.VerifController
 	cmd int
+	// injected API faults: every patch / ApplyStatus on this queue fails; the next n Command deletes fail
+	failQueue string
+	cmdFails  int
 }
 
 func newWorld(maxrq int) *world {
@@ -194,7 +200,21 @@ func newWorld(maxrq int) *world {
 	} else {
 		ctrl.Reset(vc, kube, maxrq)
 	}
-	return &world{vc: vc, c: ctrl}
+	w := &world{vc: vc, c: ctrl}
+	vc.PrependReactor("patch", "queues", func(a k8stesting.Action) (bool, runtime.Object, error) {
+		if pa, ok := a.(k8stesting.PatchAction); ok && w.failQueue != "" && pa.GetName() == w.failQueue {
+			return true, nil, errors.New("injected: the API server is unavailable")
+		}
+		return false, nil, nil
+	})
+	vc.PrependReactor("delete", "commands", func(a k8stesting.Action) (bool, runtime.Object, error) {
+		if w.cmdFails > 0 {
+			w.cmdFails--
+			return true, nil, errors.New("injected: the API server is unavailable")
+		}
+		return false, nil, nil
+	})
+	return w
 }
 
 func (w *world) dumpQueues(l []*sch.Queue) []int64 {
@@ -277,7 +297,10 @@ func (w *world) step(code, a, b, d int64) int64 {
 			panic(err)
 		}
 		w.c.AddCommand(cmd)
-		if !w.c.ProcessNextCommand() || w.c.LastCmdErr != nil {
+		w.cmdFails = int(d) // the first d Delete calls fail and are retried (d within the retry budget)
+		for w.c.ProcessNextCommand() {
+		}
+		if w.c.LastCmdErr != nil || w.cmdFails != 0 {
 			panic("command was not processed")
 		}
 		if _, err := w.vc.BusV1alpha1().Commands("default").Get(ctx, cmd.Name, metav1.GetOptions{}); !apierrors.IsNotFound(err) {
@@ -339,7 +362,11 @@ func (w *world) step(code, a, b, d int64) int64 {
 		if lo := w.listerGet(a); lo != nil {
 			w.c.AddQueue(lo)
 		}
-	case 11:
+	case 11, 12:
+		if code == 12 {
+			w.failQueue = qname(b)
+			defer func() { w.failQueue = "" }()
+		}
 		items := w.c.Q.Items()
 		if int(a) >= len(items) {
 			return 1
@@ -446,8 +473,10 @@ func laws(sel int, in, got []int64, law func(lsel int, lin []int64, sig string))
 		law(l, lin, "")
 	}
 	if sel == 4 { // quiescent end states: the full-strength laws about caught-up states
-		law(141, lin, sigStuckChild)
-		law(142, lin, sigOpenChild)
+		law(141, lin, "") // a stuck marked child that is NOT of the known class
+		law(142, lin, "") // an open child under a closed parent that is NOT of the known class
+		law(143, lin, sigStuckChild)
+		law(144, lin, sigOpenChild)
 	}
 	if sel == 3 { // PodGroup events before the queue is listed: laws against the PodGroups that really exist
 		law(131, lin, "")
@@ -726,7 +755,51 @@ func genQuiescent(r *vh.Rng, i int) (in []int64, desc map[string]any) {
 	C := func(x, a int64) { add(1, x, a, 0) }
 	P := func(k int64) { add(11, k, 0, 0) }
 	L := func(x int64) { add(9, x, 0, 0) }
-	switch i % 6 {
+	PF := func(k, c int64) { add(12, k, c, 0) }
+	maxrq := int64(vh.Pick(r, []int{-1, 3, 15}))
+	switch i % 8 {
+	case 6, 7: // transient API faults, lister always fresh: a parent with several children is closed
+		// (and re-opened) while the patch of one child / the parent's own status write fails once or twice
+		shape = "api-faults/close-open-parent"
+		maxrq = int64(vh.Pick(r, []int{-1, 15}))
+		// The lister lists siblings in map order, so a failing patch in the middle of
+		// closeHierarchicalQueue's loop would mark an order-dependent set of children: exactly ONE
+		// child needs the patch (the others were closed by hand), or the fault is on q2 itself.
+		nc := r.Range(1, 3)
+		qs = []q{{1, 0, 1, 0}, {2, 1, 1, 0}, {3, 2, 1, vh.Pick(r, []int64{0, 4})}}
+		for k := 1; k < nc; k++ {
+			qs = append(qs, q{int64(3 + k), 2, 2, vh.Pick(r, []int64{0, 2})})
+		}
+		all := func() {
+			for _, x := range qs {
+				L(x.id)
+			}
+		}
+		target := func() int64 { return int64(vh.Pick(r, []int{3, 3, 2})) }
+		C(2, 2)
+		for f := r.Range(1, 2); f > 0; f-- {
+			PF(0, target()) // the close of q2 fails at this queue's API call
+			all()
+		}
+		for k := 0; k < nc+3; k++ {
+			P(0)
+			all()
+		}
+		if r.Chance(1, 2) {
+			C(2, 1)
+			if r.Chance(1, 2) {
+				PF(0, target())
+				all()
+			}
+			for k := 0; k < 2*nc+4; k++ {
+				if r.Chance(1, 5) {
+					PF(0, target())
+				} else {
+					P(0)
+				}
+				all()
+			}
+		}
 	case 0: // parent closed and re-opened at once, FIFO, the child's lister entry late
 		shape = "close-reopen-fifo"
 		qs = []q{{1, 0, 1, 0}, {2, 1, 1, 0}, {3, 2, 1, 0}}
@@ -799,23 +872,39 @@ func genQuiescent(r *vh.Rng, i int) (in []int64, desc map[string]any) {
 			C(x, int64(r.Range(1, 2)))
 			sync()
 			for m := r.Range(0, 3); m > 0; m-- {
-				P(int64(vh.Pick(r, []int{0, 0, 0, 1, 2})))
+				var only []int64 // queues without siblings: a fault on them is order-independent
+				for _, x := range qs {
+					sib := 0
+					for _, y := range qs {
+						if y.parent == x.parent && y.id != 1 {
+							sib++
+						}
+					}
+					if x.id != 1 && sib == 1 {
+						only = append(only, x.id)
+					}
+				}
+				if maxrq != 3 && len(only) > 0 && r.Chance(1, 8) {
+					PF(int64(vh.Pick(r, []int{0, 0, 1})), vh.Pick(r, only)) // transient API fault
+				} else {
+					P(int64(vh.Pick(r, []int{0, 0, 0, 1, 2})))
+				}
 				sync()
 			}
 		}
 	}
-	for round := 0; round < 4; round++ { // catch up
-		for _, x := range qs {
-			L(x.id)
-		}
+	for round := 0; round < 4; round++ { // catch up: every queue delivered after every processed request
 		for d := 0; d < 6; d++ {
+			for _, x := range qs {
+				L(x.id)
+			}
 			P(0)
 		}
 	}
 	for _, x := range qs {
 		L(x.id)
 	}
-	in = []int64{int64(vh.Pick(r, []int{-1, 3, 15}))}
+	in = []int64{maxrq}
 	for rep := 0; rep < 2; rep++ {
 		in = append(in, int64(len(qs)))
 		for _, x := range qs {
@@ -920,6 +1009,24 @@ func gen(rng *vh.Rng, n int, emit func(id string, sel int, in []int64, kind stri
 				add(9, anyq(), 0, 0)
 			}
 		}
+		// API faults: only in histories without queue creation / re-parenting, and only on queues
+		// that have no siblings (the lister lists siblings in map order: a patch failing in the
+		// middle of closeHierarchicalQueue's loop would mark an order-dependent set of children)
+		var faultQs []int64
+		withFaults := i%3 == 0
+		if withFaults {
+			for _, x := range qs {
+				sib := 0
+				for _, y := range qs {
+					if y.parent == x.parent {
+						sib++
+					}
+				}
+				if x.id != 1 && sib == 1 && x.parent >= 1 && x.parent <= nq {
+					faultQs = append(faultQs, x.id)
+				}
+			}
+		}
 		target := r.Range(3, 30)
 		if stream == "synced" {
 			target = r.Range(8, 40)
@@ -963,10 +1070,18 @@ func gen(rng *vh.Rng, n int, emit func(id string, sel int, in []int64, kind stri
 			switch x := r.Intn(20); {
 			case x < 6:
 				a := int64(vh.Pick(r, []int{1, 1, 1, 2, 2, 2, 3, 4}))
-				add(1, anyq(), a, 0)
+				cf := int64(0) // failed Deletes of the Command before it goes through (within the budget)
+				if r.Chance(1, 6) && (maxrq == -1 || maxrq >= 1) {
+					cf = 1
+				}
+				add(1, anyq(), a, cf)
 				ncmd++
 				for k := r.Range(0, 4); k > 0; k-- {
-					add(11, int64(vh.Pick(r, []int{0, 0, 0, 0, 1, 2})), 0, 0)
+					if len(faultQs) > 0 && r.Chance(1, 5) {
+						add(12, int64(vh.Pick(r, []int{0, 0, 1})), vh.Pick(r, faultQs), 0) // API fault on one queue during this step
+					} else {
+						add(11, int64(vh.Pick(r, []int{0, 0, 0, 0, 1, 2})), 0, 0)
+					}
 					nproc++
 					syncAll()
 				}
@@ -980,12 +1095,12 @@ func gen(rng *vh.Rng, n int, emit func(id string, sel int, in []int64, kind stri
 				add(3, int64(r.Range(1, 5)), anyq(), int64(r.Range(1, 5)))
 			case x < 15:
 				add(4, int64(r.Range(1, 5)), 0, 0)
-			case x < 16:
+			case x < 16 && !withFaults:
 				// new queues only get names never used before (a re-created name would make
 				// the lister show annotations the server object no longer has)
 				add(6, nq+1, int64(r.Range(0, int(nq))), 0)
 				syncAll()
-			case x < 17:
+			case x < 17 && !withFaults:
 				p := int64(r.Range(0, int(nq)))
 				q := int64(r.Range(2, int(nq)+1))
 				if p != q {
